@@ -21,7 +21,7 @@ RULE = ("operators: SBX / polynomial / uniform / non-uniform mutation in dimensi
         "value draws in {0, 5e-324, .25, .5, .75, 1-2^-53}) x 7 boxes x distribution indices {0,1,15,20,100} x probabilities {0,.5,1} x "
         "iterations {0,1,max/2,max}; dimension 2 (thorough 3) on a reduced parent lattice; generators: all DoE/random generators over the "
         "boxes with/without precision; runs: NSGA-II, EpsMOEA, OMOPSO, SMPSO, PSOGA, N in {2,3,4}, G in {1,2,3}, 1-2 parameters, 3 box sets, "
-        "<=1 (thorough 2) deviations among all decision/pick/value draws. Non-trivial = a case in which at least one draw mutates or crosses; "
+        "<=1 (thorough 2) deviations among all decision/pick/value draws; NSGA-II additionally started from designs on the bounds with every objective call allowed to fail transiently. Non-trivial = a case in which at least one draw mutates or crosses; "
         "distinct = distinct case tuples / choice sequences.")
 ASSUMPTIONS = ["parents inside the box (as the statement requires); box widths up to 2e12",
                "tolerance for generated designs: 1e-12 relative to max(1,|lb|,|ub|) or half the declared precision; operator outputs: exact"]
@@ -230,14 +230,27 @@ def check_generator(gen, nparams, shift, arg, precision):
 BOXSETS = {"unit": [[0.0, 1.0], [0.0, 1.0]], "negtiny": [[-3.0, -1.0], [0.0, 1e-9]], "hugefar": [[-1e12, 1e12], [1e6, 1e6 + 1.0]]}
 
 
-def run_body_factory(name, N, G, nparams, boxset, seed):
+def run_body_factory(name, N, G, nparams, boxset, seed, on_bounds=False):
     bounds = BOXSETS[boxset][:nparams]
 
     def body(ctx):
         from .c_support import run_algorithm
-        problem, alg, exc = run_algorithm(name, ctx, seed, N, G, n_params=nparams, n_costs=2, bounds=bounds,
+        prepare = before = None
+        if on_bounds:
+            # the initial designs sit on the bounds (as clipped children do) and any objective call may fail transiently:
+            # the re-sampled replacement must be inside the box as well
+            def prepare(problem, alg):
+                from artap.operators import CustomGenerator
+                gen = CustomGenerator(problem.parameters)
+                gen.init([[b[(k + i) % 2] for i, b in enumerate(bounds)] for k in range(N)])
+                alg.generator = gen
+
+            def before(problem, individual):
+                if ctx.choose("fault", 2, 1, "objective") == 1:
+                    raise TimeoutError("injected")
+        problem, alg, exc = run_algorithm(name, ctx, seed, N, G, n_params=nparams, n_costs=2, bounds=bounds, prepare=prepare, before=before,
                                           shim_cfg={"extreme_values": True, "price_value": 1, "price_decision": 1, "price_pick": 1})
-        desc = "%s N=%d G=%d nparams=%d boxes=%r" % (name, N, G, nparams, bounds)
+        desc = "%s N=%d G=%d nparams=%d boxes=%r%s" % (name, N, G, nparams, bounds, " initial designs on the bounds, failures possible" if on_bounds else "")
         out = []
         if exc is not None:
             out.append(("C08:run:%s:exception:%s" % (name, type(exc).__name__), "%s raised %r" % (desc, exc)))
@@ -294,13 +307,14 @@ def _shard(shard, col: Collector):
                         col.violation(key, "gen", msg, {"gen": "random", "nparams": nparams, "shift": shift, "arg": 4, "precision": prec})
         col.sample({"generator": "random", "nparams": 2, "count": 3, "precision": 1e-3}, 1)
     elif kind == "run":
-        _, name, N, G, nparams, boxset, seed, bound, part, nparts = shard
-        body = run_body_factory(name, N, G, nparams, boxset, seed)
+        _, name, N, G, nparams, boxset, seed, bound, part, nparts = shard[:10]
+        on_bounds = len(shard) > 10 and shard[10]
+        body = run_body_factory(name, N, G, nparams, boxset, seed, on_bounds)
 
         def on_exec(ctx, out):
             col.nontrivial((name, N, G, nparams, boxset, tuple(ctx.choices)))
         n = explore_part(body, col, part, nparts, bound=bound, sub="run", on_exec=on_exec,
-                         case_extra={"name": name, "N": N, "G": G, "nparams": nparams, "boxset": boxset, "seed": seed})
+                         case_extra={"name": name, "N": N, "G": G, "nparams": nparams, "boxset": boxset, "seed": seed, "on_bounds": on_bounds})
         if part == 0:
             col.sample({"algorithm": name, "N": N, "G": G, "nparams": nparams, "boxes": BOXSETS[boxset][:nparams], "deviation_bound": bound}, 1)
 
@@ -312,8 +326,8 @@ def replay(sub, case):
     if sub == "gen":
         return check_generator(case["gen"], case["nparams"], case["shift"], case["arg"], case["precision"])
     if sub == "run":
-        ctx, out = run_once(run_body_factory(case["name"], case["N"], case["G"], case["nparams"], case["boxset"], case["seed"]),
-                            case["choices"])
+        ctx, out = run_once(run_body_factory(case["name"], case["N"], case["G"], case["nparams"], case["boxset"], case["seed"],
+                                             case.get("on_bounds", False)), case["choices"])
         return out
     raise ValueError(sub)
 
@@ -336,5 +350,8 @@ def run(tier, seed):
                     b, nparts = bound, (4 if tier == "thorough" else 1)
                 for part in range(nparts):
                     shards.append(("run", name, N, G, nparams, boxset, seed, b, part, nparts))
+    for (N, G) in ((2, 1), (3, 2)):
+        for nparams, boxset in ((1, "unit"), (2, "negtiny"), (2, "hugefar")):
+            shards.append(("run", "NSGAII", N, G, nparams, boxset, seed, 1, 0, 1, True))
     col = run_shards(_shard, shards)
     return col, {"exhaustive": col.counters.get("caps_hit", 0) == 0, "boxes": BOXES, "value_draws": [repr(d) for d in DRAWS]}
